@@ -161,7 +161,8 @@ def case(draw):
             'x': x, 'edir': manifests[mi]['dir'], 'dist': dist_name,
             'changed': really_changed, 'tags': lay['tags'],
             'weak': manifests[weak]['p'] if weak is not None else None,
-            'warm': draw(st.booleans())}
+            'warm': draw(st.sampled_from([False, True, 'update-mode',
+                                          'update-mode']))}
 
 
 def strat(tier):
@@ -225,7 +226,7 @@ def run_case(desc):
         k = desc['k']
         chain = desc['chain']
         classes = ['kind:' + desc['kind'], f'k:{k}', f'depth:{len(chain) - 1}',
-                   'warm' if desc['warm'] else 'fresh']
+                   f'warm:{desc["warm"]}']
         fmt = R.compression_of(chain[k]) or 'plain'
         classes.append('broken-fmt:' + fmt)
         B = chain[k]
@@ -236,6 +237,15 @@ def run_case(desc):
                 # (it may itself run into the broken link)
                 gem.call(m.find_path_entry, y)
                 gem.call(m.find_dist_entry, 'nothing-like-this')
+            # (only if no Manifest of the tampered chain covers that
+            # directory: such a Manifest would be loaded unchecked by design)
+            if desc['warm'] == 'update-mode' and all(
+                    layout.dirname(p) != '' for p in chain[1:]) and (
+                    not weak or layout.dirname(weak) != ''):
+                # ... including update-mode calls (which load Manifests
+                # without checking them) for an unrelated directory
+                gem.call(m.get_file_entry_dict, 'side', None, False)
+                gem.call(m.update_entries_for_directory, 'side', ['MD5'])
             oc = gem.call(getattr(m, name), *args)
             what = f'{name}{args!r} (tamper {desc["kind"]}, k={k}, B={B!r})'
             if weak:
@@ -309,7 +319,7 @@ def run_case(desc):
         m = gem.loader(root)
         oc1 = gem.call(m.find_path_entry, y)
         oc2 = gem.call(m.verify_path, y)
-        if layout.dirname(B) == '' or weak:
+        if layout.dirname(B) == '' or weak or desc['warm'] == 'update-mode':
             pass        # y lies beneath the broken Manifest's directory
         elif (oc1.kind != 'return' or ekey(oc1.value) != base_entry
                 or oc2.kind != 'return' or oc2.value != base_verify):
